@@ -205,8 +205,11 @@ def sql_level(rep, scratch, rng, tier, dss, counts):
     qnn = core.enc_str(b'^ ^ a="1"')
     qph = core.enc_str(b"^ ^ a = $1")
     for n in (4, 16):
-        scen.append(("concurrent-cached-operators-%d" % n, ["SQLOPEN d1 fa lrucache=true&lrucachesize=100000 8", "SQLCONC c1 d1 %d %s" % (n, qnn), "SQLCONC c2 d1 %d %s" % (n, qnn),
-                                                           "SQLQ s1 d1 direct %s 1" % qnn, "ARGS 0", "SQLCLOSE d1", "SQLPROBE p1 fa"]))
+        body = []
+        for rnd in range(8):        # a fresh cache every round: the first use is where several goroutines miss and store the same key
+            body += ["SQLOPEN d%d fa lrucache=true&lrucachesize=100000 %d" % (rnd, n), "SQLCONC c%d d%d %d %s" % (rnd, rnd, n, qnn),
+                     "SQLQ s%d d%d direct %s 1" % (rnd, rnd, qnn), "ARGS 0", "SQLCLOSE d%d" % rnd]
+        scen.append(("concurrent-cached-operators-%d" % n, body + ["SQLPROBE p1 fa"]))
     scen.append(("prepared-placeholder-under-not", ["SQLOPEN d1 fa - 2", "SQLQ s1 d1 prepared %s 3" % qph, "ARGS 1 S 1 49", "ARGS 1 S 1 49", "ARGS 1 S 1 49",
                                                     "SQLQ s2 d1 direct %s 2" % qph, "ARGS 1 S 1 49", "ARGS 1 S 1 49", "SQLCLOSE d1", "SQLPROBE p1 fa"]))
     # queries that fail at execution (unknown column, too few arguments) between good ones, then
